@@ -3,6 +3,7 @@ package pongo2
 import (
 	"errors"
 	"fmt"
+	"regexp"
 	"strings"
 	"unicode/utf8"
 )
@@ -41,6 +42,11 @@ var (
 
 	// Available keywords in pongo2
 	TokenKeywords = []string{"in", "and", "or", "not", "true", "false", "as", "export"}
+
+	// The verbatim tags as the lexer recognises them at its current position. Like in
+	// any other tag the blanks around the tag's name are optional.
+	reVerbatimStart = regexp.MustCompile(`^\{%[ \t]*verbatim[ \t]*%\}`)
+	reVerbatimEnd   = regexp.MustCompile(`^\{%[ \t]*endverbatim[ \t]*%\}`)
 )
 
 // eof is what the lexer's next()/peek() return at the end of the input. It lies
@@ -235,33 +241,31 @@ func (l *lexer) run() {
 	for {
 		// TODO: Support verbatim tag names
 		// https://docs.djangoproject.com/en/dev/ref/templates/builtins/#verbatim
-		if l.inVerbatim {
-			name := l.verbatimName
-			if name != "" {
-				name += " "
-			}
-			if strings.HasPrefix(l.input[l.pos:], fmt.Sprintf("{%% endverbatim %s%%}", name)) { // end verbatim
+		if strings.HasPrefix(l.input[l.pos:], "{%") {
+			if l.inVerbatim {
+				if loc := reVerbatimEnd.FindStringIndex(l.input[l.pos:]); loc != nil { // end verbatim
+					if l.pos > l.start {
+						l.emit(TokenHTML)
+						l.tokens[len(l.tokens)-1].verbatim = true
+					}
+					w := loc[1]
+					l.pos += w
+					l.col += w
+					l.ignore()
+					l.inVerbatim = false
+					continue // look at the new position again (another verbatim block may follow directly)
+				}
+			} else if loc := reVerbatimStart.FindStringIndex(l.input[l.pos:]); loc != nil { // tag
 				if l.pos > l.start {
 					l.emit(TokenHTML)
-					l.tokens[len(l.tokens)-1].verbatim = true
 				}
-				w := len("{% endverbatim %}")
+				l.inVerbatim = true
+				w := loc[1]
 				l.pos += w
 				l.col += w
 				l.ignore()
-				l.inVerbatim = false
-				continue // look at the new position again (another verbatim block may follow directly)
+				continue // look at the new position again (the block may be empty)
 			}
-		} else if strings.HasPrefix(l.input[l.pos:], "{% verbatim %}") { // tag
-			if l.pos > l.start {
-				l.emit(TokenHTML)
-			}
-			l.inVerbatim = true
-			w := len("{% verbatim %}")
-			l.pos += w
-			l.col += w
-			l.ignore()
-			continue // look at the new position again (the block may be empty)
 		}
 
 		if !l.inVerbatim {
